@@ -24,7 +24,7 @@ NATIVE_OP = {
     'EXTEND_FROM_SLICE': 'extend_from_slice', 'EXTEND_ITER': 'extend', 'FROM_ITER': 'from_iter', 'CLONE': 'clone',
     'CLONE_FROM': 'clone_from', 'FROM_ARRAY': 'from_array', 'DRAIN_DROP': 'drain_drop', 'EQ': 'eq',
     'OVER_RANGE_DRAIN': 'drain_new', 'OVER_RANGE_ITER': 'range', 'OVER_RANGE_ITERMUT': 'range_mut',
-    'SWAP': 'swap', 'INDEX': 'index', 'INDEX_MUT': 'index_mut',
+    'SWAP': 'swap', 'INDEX': 'index', 'INDEX_MUT': 'index_mut', 'ADD_MOD': 'add_mod', 'SUB_MOD': 'sub_mod',
 }
 
 MODELS = ['slice index/index_mut for Range/RangeTo/RangeFrom/RangeFull (bounds-checked, panic on failure)', 'split_at(_mut)',
@@ -88,6 +88,8 @@ def cbmc_job(job):
         defs.append('-DWITNESS')
     if job.get('order'):
         defs.append('-DORDER')
+    if job.get('faults') == 9:          # sub_mod against add_mod's contract
+        defs.append('-DSKIP_mir_add_mod')
     cmd = ['cbmc', 'harness.c'] + defs + ['--unwind', str(job['unwind']), '--unwinding-assertions', '--object-bits', '12']
     if job.get('solver'):
         cmd.append(job['solver'])
